@@ -378,3 +378,175 @@ def _watcher_drop_cond(repo):
             "def watcherDropCond : List ((Bool × Bool) × Bool) := ["
             + ", ".join(f"(({b(p)}, {b(f)}), {b(v)})" for (p, f), v in rows) + "]")
     return {"cond": re.sub(r"\s+", " ", cond), "rows": rows}, lean
+
+
+# --------------------------------------------------------------------------------------------------
+# C20_LOADER_STORE: what fast reload's `clear_templates()` empties.  Regenerated from
+# minijinja/src/loader.rs + environment.rs:
+#   * the FIELDS of `struct LoaderStore` (name, head of the type),
+#   * per method of `impl LoaderStore`: every use of a field through `self`, in source order, as
+#     (field, how): how = the method called on it (`self.f.m(` -> m), `=` for an assignment, `use` for any
+#     other mention (`&self.f`, `match self.f`),
+#   * the body of `Environment::clear_templates` as the calls it makes on fields of the environment, and
+#     the type of the field `templates`.
+# `MJ.C20.clear_empties_every_lookup_cache` demands that EVERY field on which any method of the store calls a
+# method (= a container the lookup consults or fills: a template cache, a negative cache, an index …) is
+# `.clear()`ed by `LoaderStore::clear`, and that the field list is the one the Lean model of the store has.
+
+LOADER_SRC = "minijinja/src/loader.rs"
+ENV_SRC = "minijinja/src/environment.rs"
+
+
+def _strip(src):
+    src = re.sub(r"//[^\n]*", "", src)
+    src = re.sub(r'"(?:[^"\\]|\\.)*"', '""', src)
+    return src
+
+
+def _block_after(src, m_end):
+    i = src.index("{", m_end - 1)
+    d, j = 0, i
+    while j < len(src):
+        if src[j] == "{":
+            d += 1
+        elif src[j] == "}":
+            d -= 1
+            if d == 0:
+                return src[i + 1:j]
+        j += 1
+    raise KeyError("unbalanced block")
+
+
+def _struct_fields(src, name):
+    m = re.search(r"\bstruct\s+%s\b[^{;]*\{" % name, src)
+    if not m:
+        raise KeyError("struct " + name)
+    body = _block_after(src, m.end())
+    body = re.sub(r"#\[[^\]]*\]", "", body)
+    fields = []
+    # split at top-level commas
+    d, cur = 0, ""
+    for c in body:
+        if c in "<([{":
+            d += 1
+        elif c in ">)]}":
+            d -= 1
+        if c == "," and d == 0:
+            fields.append(cur)
+            cur = ""
+        else:
+            cur += c
+    fields.append(cur)
+    res = []
+    for f in fields:
+        mm = re.match(r"\s*(?:pub(?:\s*\([^)]*\))?\s+)?(\w+)\s*:\s*(.+?)\s*$", f, re.S)
+        if mm:
+            res.append((mm.group(1), re.match(r"[&'\w\s]*?(\w+)\s*(?:<|$)", mm.group(2).strip()).group(1)))
+    return res
+
+
+def loader_store(repo):
+    src = _strip(read(repo, LOADER_SRC))
+    fields = _struct_fields(src, "LoaderStore")
+    if not fields:
+        raise KeyError("no fields of LoaderStore found")
+    names = [f for f, _ in fields]
+    uses = []
+    for m in re.finditer(r"\bimpl\b[^{;]*\bLoaderStore\b[^{;]*\{", src):
+        if re.search(r"\bfor\s+LoaderStore\b", m.group(0)):
+            body = _block_after(src, m.end())       # trait impls (Debug): reads only, listed too
+        else:
+            body = _block_after(src, m.end())
+        for fname, fbody in _functions(body):
+            toks = []
+            for u in re.finditer(r"\bself\s*\.\s*(\w+)\b(\s*\.\s*(\w+)\s*(?:::\s*<[^>]*>\s*)?\(|\s*=(?!=))?", fbody):
+                if u.group(1) not in names:
+                    continue
+                how = u.group(3) if u.group(3) else ("=" if u.group(2) and u.group(2).strip().startswith("=") else "use")
+                toks.append((u.group(1), how))
+            uses.append((fname, toks))
+    if not any(n == "clear" for n, _ in uses) or not any(n == "get" for n, _ in uses):
+        raise KeyError("LoaderStore::clear / LoaderStore::get not found")
+    esrc = _strip(read(repo, ENV_SRC))
+    efields = dict(_struct_fields(esrc, "Environment"))
+    if "templates" not in efields:
+        raise KeyError("Environment.templates")
+    m = re.search(r"\bfn\s+clear_templates\s*\(", esrc)
+    if not m:
+        raise KeyError("Environment::clear_templates")
+    cbody = _block_after(esrc, esrc.index(")", m.end()) + 1)
+    calls = [re.sub(r"\s+", "", x) for x in re.findall(r"\bself\s*\.\s*(\w+\s*\.\s*\w+)\s*\(", cbody)]
+    other = re.sub(r"\bself\s*\.\s*\w+\s*\.\s*\w+\s*\(\s*\)\s*;", "", cbody).strip()
+    if other:
+        calls.append("other:" + re.sub(r"\s+", " ", other)[:60])
+    ttype = efields["templates"]
+    al = re.search(r"\buse\s+crate\s*::\s*loader\s*::\s*(\w+)\s+as\s+%s\s*;" % re.escape(ttype), esrc)
+    if al:
+        ttype = al.group(1)      # `use crate::loader::LoaderStore as TemplateStore;`
+    return fields, uses, calls, ttype
+
+
+@item("C20_LOADER_STORE")
+def _loader_store(repo):
+    fields, uses, calls, ttype = loader_store(repo)
+    pair = lambda a, b: "(" + lean_str(a) + ", " + lean_str(b) + ")"
+    lean = ("/-- fields of `struct LoaderStore` (minijinja/src/loader.rs): (name, head of its type) -/\n"
+            "def loaderStoreFields : List (String × String) := [" + ", ".join(pair(a, b) for a, b in fields) + "]\n"
+            "/-- per method of LoaderStore: every use of a field through `self`, in source order -/\n"
+            "def loaderStoreUses : List (String × List (String × String)) := [\n  "
+            + ",\n  ".join("(" + lean_str(n) + ", [" + ", ".join(pair(a, b) for a, b in toks) + "])" for n, toks in uses) + "]\n"
+            "/-- the calls `Environment::clear_templates` makes on fields of the environment -/\n"
+            "def envClearTemplatesCalls : List String := [" + ", ".join(lean_str(c) for c in calls) + "]\n"
+            "def envTemplatesType : String := " + lean_str(ttype))
+    return {"fields": fields, "uses": uses, "clear_templates": calls, "templates_type": ttype}, lean
+
+
+# --------------------------------------------------------------------------------------------------
+# C20_HANDLE_SITES: who can hold a STRONG handle on the notifier state, who constructs notifiers.
+# Every `NotifierImplHandle::Strong(` / `::Weak(` CONSTRUCTION (not the patterns of a `match`), every
+# `Notifier::new()` / `Notifier {` expression, with the impl block and function it sits in, plus the
+# visibility of `Notifier::new`.  `MJ.C20.one_strong_handle_per_reloader` proves from it: the only strong
+# handle is made in the private `Notifier::new`, which only `AutoReloader::new` calls (one NotifierImpl per
+# reloader: two reloaders never share a flag), and every notifier that leaves the reloader (`notifier()`,
+# the creator's argument) is weak (so dropping the reloader kills them all).
+
+def handle_sites(repo):
+    src = _strip(_strip_hooks(read(repo, SRC)))
+    sites = []
+    for m in re.finditer(r"\bimpl\b([^{;]*)\{", src):
+        head = re.sub(r"\s+", " ", m.group(1)).strip()
+        tname = re.findall(r"\b([A-Z]\w*)\b", head)
+        tname = tname[-1] if tname else "?"
+        body = _block_after(src, m.end())
+        for mf in re.finditer(r"((?:pub(?:\s*\([^)]*\))?\s+)?)fn\s+(\w+)\b", body):
+            pass
+        for fname, fbody in _functions(body):
+            vis = "pub" if re.search(r"\bpub\s+fn\s+%s\b" % fname, body) else "priv"
+            # constructions: `Strong(`/`Weak(` not followed (after the balanced parens) by `=>`
+            for k in re.finditer(r"NotifierImplHandle\s*::\s*(Strong|Weak)\s*\(", fbody):
+                d, j = 1, k.end()
+                while d and j < len(fbody):
+                    d += {"(": 1, ")": -1}.get(fbody[j], 0)
+                    j += 1
+                if re.match(r"\s*=>", fbody[j:]):
+                    continue
+                sites.append((tname + "::" + fname, vis, "make" + k.group(1)))
+            for k in re.finditer(r"\bNotifier\s*::\s*new\s*\(", fbody):
+                sites.append((tname + "::" + fname, vis, "call:Notifier::new"))
+            for k in re.finditer(r"\bself\s*\.\s*notifier\s*\.\s*(\w+)\s*\(", fbody):
+                if tname == "AutoReloader" and fname == "notifier":
+                    sites.append((tname + "::" + fname, vis, "returns:self.notifier." + k.group(1)))
+            if re.search(r"\bself\s*\.\s*notifier\s*\.\s*clone\s*\(", fbody) or re.search(r"\bself\s*\.\s*notifier\s*[,)]", fbody):
+                sites.append((tname + "::" + fname, vis, "leaks:self.notifier"))
+    if not any(s[2] == "makeStrong" for s in sites):
+        raise KeyError("no construction of NotifierImplHandle::Strong found")
+    return sites
+
+
+@item("C20_HANDLE_SITES")
+def _handle_sites(repo):
+    sites = handle_sites(repo)
+    lean = ("/-- (function, visibility, what): constructions of strong / weak notifier handles and of notifiers -/\n"
+            "def notifierHandleSites : List (String × String × String) := [\n  "
+            + ",\n  ".join("(" + lean_str(a) + ", " + lean_str(b) + ", " + lean_str(c) + ")" for a, b, c in sites) + "]")
+    return sites, lean
